@@ -15,6 +15,7 @@ STRATA = [
     ("cone", 500, 10000),
     ("rational", 500, 10000),
     ("max-iter", 500, 10000),
+    ("big-rhs", 2500, 30000),
     ("ipm-config", 300, 6000),
     ("scale", 1, 10),
     ("suite", 0, 1),
@@ -115,6 +116,21 @@ def gen(stratum, rng, tier):
     elif stratum == "max-iter":
         kw["max_iter"] = rng.choice([1, 1, 2, 2, 3, 5])
         b = [rng.choice([0, 1, 2, 4, -1, -2, -3, 5]) for _ in range(m)]
+    elif stratum == "big-rhs":
+        # integer data with single- to three-digit coefficients and right-hand sides of 1e4..1e6 (quantities, budgets):
+        # phase 1 starts from a large total infeasibility, and what is left of it at the end is cancellation noise of
+        # that size, not of size 1
+        hi = rng.choice([9, 9, 99, 999])
+        A = [[rng.randint(-hi, hi) if rng.random() < 0.8 else 0 for _ in range(n)] for _ in range(m)]
+        unit = rng.choice([10 ** 4, 10 ** 5, 10 ** 5, 10 ** 6])
+        b = [rng.randint(-9, 9) * unit for _ in range(m)]
+        if rng.random() < 0.5 and A:
+            k = rng.randrange(len(A))
+            beta = abs(b[k]) or unit
+            b[k] = beta
+            A.append([-a for a in A[k]])
+            b.append(-beta)  # an equality written as a pair of rows
+        c = [rng.randint(-hi, hi) for _ in range(n)]
     elif stratum == "ipm-config":
         ipm_kw = {"eps": rng.choice([1e-8, 1e-6, 1e-4]), "max_iter": rng.choice([30, 100, 500])}
         # bounded feasible polytopes give the interior point method a chance to converge
